@@ -3,6 +3,8 @@ import Generated.C15
 import Proofs.C15
 import Proofs.C15.Loop
 import Proofs.C15.Audit
+import Proofs.C15.Clock
+import Proofs.C15.Cas
 /-!
 # C15 — keys route to the next ACTIVE partition; partition states follow legal edges
 
@@ -290,6 +292,92 @@ theorem cas_retry_promotion_guard (c : Cfg) (now : Int) (stale : List PDesc) (fr
       d' = { fresh with parts := setPart { p with state := sActive, stateTs := now } fresh.parts } := by
   rw [cas_retry_is_rerun] at h
   exact reconcileOwned_guard fresh d' c now (by simpa [step] using h)
+
+
+/-! ### the store as a versioned cell: every interleaving of other actors' writes with a CAS call (`Model/C15Cas.lean`) -/
+
+/-- **a committed CAS is the closure's decision on the value it commits against**, for EVERY closure, attempt budget
+and schedule of foreign writes between reads and compares: the written value is what the closure answered on a cell
+`fresh` reached through other actors' updates only, and it becomes the very next version after `fresh`. -/
+theorem cas_commit_is_decision_on_committed_value (f : PDesc → Except C15.Err (Option PDesc)) (fuel : Nat) (s s' : Cell)
+    (sched : List (List Op)) (d' : PDesc) (h : casRun f fuel s sched = (s', .done (.ok (some d')))) :
+    ∃ fresh, Foreign s fresh ∧ f fresh.val = .ok (some d') ∧ s' = { val := d', ver := fresh.ver + 1 } :=
+  casRun_commit f fuel s s' sched d' h
+
+/-- a CAS call that ends without a write (closure error, "not changed", attempts exhausted) leaves the cell exactly
+as the other actors made it. -/
+theorem cas_without_write_leaves_foreign_state (f : PDesc → Except C15.Err (Option PDesc)) (fuel : Nat) (s s' : Cell)
+    (sched : List (List Op)) (r : CasRes) (h : casRun f fuel s sched = (s', r))
+    (hr : ∀ d', r ≠ .done (.ok (some d'))) : Foreign s s' :=
+  casRun_nowrite f fuel s s' sched r h hr
+
+/-- **deletion guard under every interleaving**: whatever other actors write while `reconcileOtherPartitions` is
+inside its CAS, the partitions it removes are inactive long enough, owner-less and not its own ON THE RING IT COMMITS
+AGAINST (version `fresh.ver`, the commit being `fresh.ver + 1`). -/
+theorem cas_interleaved_deletion_guard (c : Cfg) (now : Int) (fuel : Nat) (s s' : Cell) (sched : List (List Op)) (d' : PDesc)
+    (h : casRun (fun d => step d (.reconcileOthers c now)) fuel s sched = (s', .done (.ok (some d')))) :
+    ∃ fresh, Foreign s fresh ∧ s' = { val := d', ver := fresh.ver + 1 } ∧
+      d'.owners = fresh.val.owners ∧ (∀ q ∈ d'.parts, q ∈ fresh.val.parts) ∧
+      ∀ p ∈ fresh.val.parts, p ∉ d'.parts →
+        c.deleteAfter > 0 ∧ p.id ≠ c.pid ∧ p.state = sInactive ∧ p.stateTs < now - c.deleteAfter ∧
+        ownersCount fresh.val p.id = 0 := by
+  obtain ⟨fresh, h1, h2, h3⟩ := casRun_commit _ fuel s s' sched d' h
+  exact ⟨fresh, h1, h3, reconcileOthers_guard fresh.val d' c now (by simpa [step] using h2)⟩
+
+/-- **promotion guard under every interleaving** (also: never while locked, only PENDING → ACTIVE). -/
+theorem cas_interleaved_promotion_guard (c : Cfg) (now : Int) (fuel : Nat) (s s' : Cell) (sched : List (List Op)) (d' : PDesc)
+    (h : casRun (fun d => step d (.reconcileOwned c now)) fuel s sched = (s', .done (.ok (some d')))) :
+    ∃ fresh, Foreign s fresh ∧ s' = { val := d', ver := fresh.ver + 1 } ∧
+      ∃ p, fresh.val.get? c.pid = some p ∧ p.state = sPending ∧ p.locked = false ∧
+        ownersCountUpdatedBefore fresh.val c.pid (now - c.waitDur) ≥ c.waitCount ∧
+        d' = { fresh.val with parts := setPart { p with state := sActive, stateTs := now } fresh.val.parts } := by
+  obtain ⟨fresh, h1, h2, h3⟩ := casRun_commit _ fuel s s' sched d' h
+  exact ⟨fresh, h1, h3, reconcileOwned_guard fresh.val d' c now (by simpa [step] using h2)⟩
+
+/-- **state edges / registration under every interleaving**: for ANY operation, the version a CAS call commits is one
+`step` of that operation from the version right before it — so `state_edges`, `only_lock_changes_lock`,
+`only_reconcile_deletes`, `stopping_removes_only_own_owner` apply to the pair (`fresh.val`, committed value). -/
+theorem cas_interleaved_commit_is_step (op : Op) (fuel : Nat) (s s' : Cell) (sched : List (List Op)) (d' : PDesc)
+    (h : casRun (fun d => step d op) fuel s sched = (s', .done (.ok (some d')))) :
+    ∃ fresh, Foreign s fresh ∧ step fresh.val op = .ok (some d') ∧ s' = { val := d', ver := fresh.ver + 1 } :=
+  casRun_commit _ fuel s s' sched d' h
+
+/-- non-vacuity: the deletion decided on the first read (partition 1 inactive since 0, no owners) is NOT carried out
+when an owner registers for it during the attempt; the retry commits nothing and the cell holds the foreign write. -/
+example :
+    let d0 : PDesc := { parts := [{ id := 1, state := sInactive, stateTs := 0, tokens := [5] }, { id := 2, state := sActive, stateTs := 0, tokens := [9] }] }
+    let a : Cfg := { pid := 2, inst := "a", deleteAfter := 5 }
+    let b : Cfg := { pid := 1, inst := "b" }
+    (step d0 (.reconcileOthers a 100)).toOption.bind id ≠ none ∧
+    (casRun (fun d => step d (.reconcileOthers a 100)) 10 ⟨d0, 0⟩ [[.wait b 50]]).2 = .done (.ok none) ∧
+    (casRun (fun d => step d (.reconcileOthers a 100)) 10 ⟨d0, 0⟩ [[.wait b 50]]).1.val.parts.length = 2 ∧
+    ((casRun (fun d => step d (.reconcileOthers a 100)) 10 ⟨d0, 0⟩ [[]]).1).val.parts.length = 1 := by decide
+
+/-! ### clocks with a sub-second part -/
+
+/-- the handlers compare whole seconds only: under a clock with a sub-second part (ms) and whole-second delays they are
+the handlers under that clock's `Unix()` second. -/
+theorem subsecond_clock_is_unix_second (d : PDesc) (c : Cfg) (nowMs : Int) :
+    reconcileOthersMs d c nowMs = reconcileOthers d c (unixSec nowMs) ∧
+    reconcileOwnedMs d c nowMs = reconcileOwned d c (unixSec nowMs) :=
+  ⟨reconcileOthersMs_eq d c nowMs, reconcileOwnedMs_eq d c nowMs⟩
+
+/-- **deleted only when inactive LONGER than the delay, at sub-second resolution**: the stored state timestamp is the
+instant of the change truncated to the second; whatever instant `setAtMs` within (or before) that second the state was
+really set at, at the handler's clock `nowMs` strictly more than the delay has passed. (`StateTimestamp < since.Unix()`
+gives this; comparing the truncated timestamp with the un-truncated `since` would not.) -/
+theorem deletion_guard_subsecond (d d' : PDesc) (c : Cfg) (nowMs : Int) (h : reconcileOthersMs d c nowMs = .ok (some d')) :
+    d'.owners = d.owners ∧ (∀ q ∈ d'.parts, q ∈ d.parts) ∧
+    ∀ p ∈ d.parts, p ∉ d'.parts →
+      c.deleteAfter > 0 ∧ p.id ≠ c.pid ∧ p.state = sInactive ∧ ownersCount d p.id = 0 ∧
+      ∀ setAtMs : Int, setAtMs < (p.stateTs + 1) * 1000 → nowMs - setAtMs > c.deleteAfter * 1000 :=
+  reconcileOthersMs_guard d d' c nowMs h
+
+/-- non-vacuity / boundary: state set in second 10, delay 5 s: at 15.999 s nothing is deleted, at 16.000 s it is. -/
+example :
+    let d0 : PDesc := { parts := [{ id := 1, state := sInactive, stateTs := 10, tokens := [5] }] }
+    let a : Cfg := { pid := 2, inst := "a", deleteAfter := 5 }
+    reconcileOthersMs d0 a 15999 = .ok none ∧ reconcileOthersMs d0 a 16000 = .ok (some { parts := [] }) := by decide
 
 /-! ### replication sets -/
 
